@@ -26,7 +26,7 @@ def _structural(chk):
 
 
 def run():
-    chk = core_check("C05", cfgs=("A", "B"), quick_keep=12, thorough_keep=4, extra=_structural, traces=(3000, 60000))
+    chk = core_check("C05", cfgs=("A", "B"), quick_keep=12, thorough_keep=4, extra=_structural, traces=(3000, 20000))
     if isinstance(chk, int):
         return chk
     chk.assumptions += ["snapshots without user-controlled parts; leaf values (structured values: C02/C11)"]
